@@ -103,7 +103,32 @@ func acctState(w *World, h *HistRun) (string, any) {
 		ss = append(ss, fmt.Sprintf("u%d[%s]", se.U, strings.Join(g, ",")))
 	}
 	sort.Strings(ss)
-	return strings.Join(parts, ";") + "|" + strings.Join(ss, ";"), info
+	// ghost accounting (money credited minus rated usage) is part of the state: the C06 oracle depends on it
+	var gh []string
+	for _, k := range sortedKeys(s.Bal) {
+		supi, rg := splitKey(k)
+		u, _ := unitCostOf(w.Cfg, supi, rg)
+		var g int64
+		for _, a := range w.Cfg.Accounts {
+			if a.Supi == supi && a.RG == rg {
+				g, _ = strconv.ParseInt(a.Quota, 10, 64)
+			}
+		}
+		for _, sj := range h.Steps {
+			if sj.Resp.Code/100 != 2 || sj.Supi != supi {
+				continue
+			}
+			if sj.Op.K == "recharge" && sj.Op.RG == rg {
+				g += sj.Op.Amt
+			}
+			if sj.Op.K == "update" || sj.Op.K == "release" {
+				uj, _ := onlineUsed(sj.Op, rg)
+				g -= u * uj
+			}
+		}
+		gh = append(gh, fmt.Sprint(g))
+	}
+	return strings.Join(parts, ";") + "|" + strings.Join(ss, ";") + "|g" + strings.Join(gh, ","), info
 }
 
 const (
